@@ -644,8 +644,9 @@ impl CircuitBuilder {
     }
 
     pub fn push_panic_if(&mut self, cond: GateIndex, reason: PanicReason, meta: MetaInfo) {
-        if let Some(existing_panic) = self.panic_gates.cache.get(&cond) {
-            self.panic_gates.result = existing_panic.clone();
+        if self.panic_gates.cache.contains_key(&cond) {
+            // The condition has already been recorded on every path leading here, so the
+            // current panic result already accounts for it (the first panic wins).
             return;
         }
         let already_panicked = self.panic_gates.result.has_panicked;
@@ -714,16 +715,11 @@ impl CircuitBuilder {
         }: &CachedPanicResult,
     ) -> CachedPanicResult {
         let result = self.mux_uncached_panic(condition, t, f);
+        // Only conditions recorded on both paths are known to be accounted for afterwards.
         let mut cache = HashMap::new();
-        for k in cache_t.keys().chain(cache_f.keys()) {
-            match (cache_t.get(k), cache_f.get(k)) {
-                (None, None) => {}
-                (None, Some(result)) | (Some(result), None) => {
-                    cache.insert(*k, result.clone());
-                }
-                (Some(t), Some(f)) => {
-                    cache.insert(*k, self.mux_uncached_panic(condition, t, f));
-                }
+        for (k, panic_t) in cache_t.iter() {
+            if cache_f.contains_key(k) {
+                cache.insert(*k, panic_t.clone());
             }
         }
         CachedPanicResult { result, cache }
